@@ -118,6 +118,15 @@ class Ctx:
         if fi is not None:
             a = fi.node.args
             have = {p.arg for p in a.posonlyargs + a.args + a.kwonlyargs}
+            # a boolean flag may be declared under its mirrored name with the opposite polarity (left_continuous / right_continuous,
+            # increasing / decreasing): the role is the same, the constant is negated
+            mirrored = []
+            for n, v in named:
+                if n not in have and n in ANTONYMS and ANTONYMS[n] in have and isinstance(v, Const) and isinstance(v.value, bool):
+                    mirrored.append((ANTONYMS[n], Const(not v.value)))
+                else:
+                    mirrored.append((n, v))
+            named = mirrored
             if all(n in have for n, _v in named) and not a.posonlyargs:
                 kw.update({n: v for n, v in named})
                 return self.ev.call(fv, [], kw)
@@ -128,6 +137,10 @@ class Ctx:
             return self.db.function(qualname).where()
         except AnalysisError:
             return qualname
+
+
+ANTONYMS = {"left_continuous": "right_continuous", "right_continuous": "left_continuous", "increasing": "decreasing", "decreasing": "increasing",
+            "ascending": "descending", "descending": "ascending"}
 
 
 def cell(ev, matrix, ij):
